@@ -246,9 +246,9 @@ def paren(s):
     return "(%s)" % s if " " in s else s
 
 
-def translate(sts, cx):
+def translate(sts, cx, top=True):
     ops = []
-    for st in sts:
+    for idx, st in enumerate(sts):
         s = strip(st)
         k = s.get("kind")
         if k in ("NullStmt",):
@@ -256,6 +256,9 @@ def translate(sts, cx):
         if k == "DeclStmt" and all(d.get("kind") == "StaticAssertDecl" for d in inner(s)):
             continue
         if k == "ReturnStmt":
+            if not (top and idx == len(sts) - 1):
+                ops.append("OUnknown")                      # an early return changes the control flow: not modelled
+                continue
             e = strip(inner(s)[0]) if inner(s) else None
             if e is None or obj_of(e, cx) == "This" or value_ref(e, cx) == "This":
                 continue
@@ -269,8 +272,8 @@ def translate(sts, cx):
             if c is None or len(parts) < 2:
                 ops.append("OUnknown")
                 continue
-            t = translate(stmts(parts[1]), cx)
-            e = translate(stmts(parts[2]), cx) if len(parts) > 2 else []
+            t = translate(stmts(parts[1]), cx, False)
+            e = translate(stmts(parts[2]), cx, False) if len(parts) > 2 else []
             ops.append("OIf (%s %s) [%s] [%s]" % (c[0], c[1], "; ".join(t), "; ".join(e)))
             continue
         mc = member_call(s, cx)
